@@ -89,8 +89,12 @@ CLAIMS['C02'] = {
              "placed_layouts/embedding_uses_recorded – the layouts used when embedding a type are the ones recorded for it, which are "
              "what the compiler uses; enum_sound, vftable_sound, size_check_emitted. Correspondence plus an oracle comparing, for every "
              "emitted item, pyxis's resolved (size, align) with the compiler-rule layout of the emitted text, the size-check literal and the "
-             "declared attributes; the real nightly compiler confirms both the layout model and pyxis's resolved sizes at both pointer widths on a sample per run (all worlds in the thorough tier). Per-item theorems; the registry-wide induction over resolution rounds is not formalised."),
-    'note': COMMON_NOTE + "rustc layout modelled; extern types assumed to have their declared layout; by-value void excluded (pyxis 0 vs c_void 1).",
+             "declared attributes; the real nightly compiler confirms both the layout model and pyxis's resolved sizes at both pointer widths on a sample per run (all worlds in the thorough tier). Registry-wide (Props/C02Global.lean): `Compiled reg p s a` is the modelled compiler's RECURSIVE layout judgement over the emitted items (it reads only "
+             "the emitted field lists and the printed align(N), never pyxis's recorded sizes; compiled_unique: it is a function); new_sound / addModule_sound / "
+             "attempt_sound / build_sound / case_sound: for every bounded case that is accepted, every resolved item of the final registry has Compiled size and "
+             "alignment equal to the resolved ones, or embeds `void` by value; case_sound_partial + sound_voidfree: without by-value void the exclusion disappears; "
+             "sound_unrestricted_refuted: with it the statement is FALSE (kernel-checked witness `type S { x: void }`; the same input is an open finding on the implementation)."),
+    'note': COMMON_NOTE + "rustc layout modelled (validated by the real compiler at both widths); extern types assumed to have their declared layout; by-value void is an open finding (pyxis 0 vs c_void 1).",
     'technique': 'Lean 4 proof (repr(C) size/alignment lemma, lcm bound, table decide) + differential correspondence + layout oracle',
 }
 CLAIMS['C11'] = {
